@@ -123,6 +123,15 @@ impl<'de> serde::Deserialize<'de> for BasicHeader {
 impl BasicHeader {
     /// Parse basic header from block 1 string
     pub fn parse(block1: &str) -> Result<Self> {
+        // Header blocks are cut by byte offsets: only ASCII can be sliced safely, and the
+        // header character sets contain nothing else
+        if !block1.is_ascii() {
+            return Err(ParseError::InvalidBlockStructure {
+                block: "1".to_string(),
+                message: "Block 1 must contain only ASCII characters".to_string(),
+            });
+        }
+
         // Expected format: F01SSSSSSSSSCCC0000NNNNNN (exactly 25 characters)
         // Where: F=app_id, 01=service_id, SSSSSSSSSCCC=logical_terminal(12), 0000=session(4), NNNNNN=sequence(6)
         if block1.len() != 25 {
@@ -363,6 +372,15 @@ pub enum ApplicationHeader {
 impl ApplicationHeader {
     /// Parse application header from block 2 string
     pub fn parse(block2: &str) -> Result<Self> {
+        // Header blocks are cut by byte offsets: only ASCII can be sliced safely, and the
+        // header character sets contain nothing else
+        if !block2.is_ascii() {
+            return Err(ParseError::InvalidBlockStructure {
+                block: "2".to_string(),
+                message: "Block 2 must contain only ASCII characters".to_string(),
+            });
+        }
+
         if block2.len() < 4 {
             return Err(ParseError::InvalidBlockStructure {
                 block: "2".to_string(),
@@ -798,6 +816,15 @@ pub struct PaymentControlsInfo {
 impl UserHeader {
     /// Parse user header from block 3 string using structured parsing
     pub fn parse(block3: &str) -> Result<Self> {
+        // Header blocks are cut by byte offsets: only ASCII can be sliced safely, and the
+        // header character sets contain nothing else
+        if !block3.is_ascii() {
+            return Err(ParseError::InvalidBlockStructure {
+                block: "3".to_string(),
+                message: "Block 3 must contain only ASCII characters".to_string(),
+            });
+        }
+
         let mut user_header = UserHeader::default();
 
         // Parse nested tags in format {tag:value}
@@ -1190,6 +1217,15 @@ pub struct SystemOriginatedMessage {
 impl Trailer {
     /// Parse trailer from block 5 string using structured parsing
     pub fn parse(block5: &str) -> Result<Self> {
+        // Header blocks are cut by byte offsets: only ASCII can be sliced safely, and the
+        // header character sets contain nothing else
+        if !block5.is_ascii() {
+            return Err(ParseError::InvalidBlockStructure {
+                block: "5".to_string(),
+                message: "Block 5 must contain only ASCII characters".to_string(),
+            });
+        }
+
         let mut trailer = Trailer::default();
 
         // Extract common tags if present
